@@ -357,4 +357,91 @@ def r03_s(ctx):
     ctx.include(c09.r09_8, 'R03.S')
 
 
-RULES = [("R03.1", r03_1), ("R03.2", r03_2), ("R03.3", r03_3), ("R03.4", r03_4), ("R03.5", r03_5), ("R03.6", r03_6), ("R03.7", r03_7), ("R03.S", r03_s)]
+def r03_8(ctx):
+    """the raw-number option decides how a number enters the DOM: wherever the result of Parser::parse_number (the typed
+    number parse) is turned into a DOM node - through the DOM visitor's visit_u64 / visit_i64 / visit_f64 or a Value
+    constructor - the site lies on the edge where `cfg.use_rawnumber` was tested to be false.  (With the option on, the
+    text of the number is kept; a fast path that builds the node itself must honour it too.)"""
+    from ..analysis import forward_derived
+    prog = ctx.prog()
+    n = 0
+    seen = collections.Counter()
+    for f in prog.fns.values():
+        if f.crate != "sonic_rs":
+            continue
+        pn = [(b, t) for b, t in f.calls() if callee_is(t, "parse_number") and "parser::Parser" in t["callee"]]
+        if not pn:
+            continue
+        der = set()
+        for b, t in pn:
+            der |= {t["dest"][0]}
+        for _ in range(6):
+            der |= forward_derived(f, der)
+            for b, t in f.calls():
+                if callee_is(t, "branch", "from", "into") and t["args"] and op_local(t["args"][0]) in der:
+                    der.add(t["dest"][0])
+            for b, i, s_ in f.assigns():
+                pl = op_place(s_["rv"]["op"]) if s_["rv"]["k"] == "use" else None
+                if pl is not None and pl[0] in der and not s_["lhs"][1]:
+                    der.add(s_["lhs"][0])
+        sinks = []
+        for b, t in f.calls():
+            nm = t["callee"].rsplit("::", 1)[-1]
+            dom_visit = nm in ("visit_u64", "visit_i64", "visit_f64") and "JsonVisitor" in (t.get("trait") or t["callee"])
+            ctor = nm.startswith("new_") and "value::node::Value" in t["callee"]
+            if (dom_visit or ctor) and any(op_local(a) in der for a in t["args"]):
+                sinks.append((b, t))
+        for b, t in sinks:
+            n += 1
+            guarded = False
+            for sb, st in f.terms():
+                if st["k"] != "switch" or st.get("dty") != "bool" or op_local(st["discr"]) is None or not f.dominates(sb, b):
+                    continue
+                sl, leaves = backward_slice(f, [op_local(st["discr"])], through_calls=False)
+                if not any(lf[0] == "place" and "use_rawnumber" in [e[2] for e in lf[1][1] if isinstance(e, list) and e[0] == "."] for lf in leaves):
+                    continue
+                negs = sum(1 for x in sl | {op_local(st["discr"])} for d in f.defs.get(x, []) if d[0] == "stmt" and d[3]["rv"]["k"] == "unop" and d[3]["rv"]["op"] == "Not")
+                edges = dict((int(v), tg) for v, tg in st["targets"])
+                false_t = edges.get(0, st["otherwise"]) if not negs % 2 else st["otherwise"]
+                true_t = st["otherwise"] if not negs % 2 else edges.get(0, st["otherwise"])
+                if (false_t == b or f.dominates(false_t, b)) and b not in f.reachable_from(true_t, avoid={false_t}):
+                    guarded = True
+            seen[short(f.id)] += 1
+            ctx.ob("R03.8", f"{short(f.id)}#{seen[short(f.id)]}", guarded, f.loc(t["ln"]),
+                   "the parsed number becomes a DOM node only where use_rawnumber was tested to be off" if guarded else
+                   f"a parsed number is turned into a DOM node ({t['callee'].rsplit('::', 1)[-1]}) without a test of cfg.use_rawnumber: with the option on, this value loses its text (as_raw_number() is None, long literals are rounded) while its siblings keep theirs")
+    ctx.floor("R03.8", "sites turning a parsed number into a DOM node", n, 2)
+
+
+def r03_9(ctx):
+    """sibling agreement of the DOM visitor's text nodes: string nodes and raw-number nodes both keep a pointer into the
+    document's text and are located through the same container header, so whatever bookkeeping the visitor does for one
+    (a field of the visitor it sets) it does for the other - visit_str / visit_borrowed_str / visit_raw_number /
+    visit_borrowed_raw_number write the same set of visitor fields"""
+    prog = ctx.prog()
+    sibs = {}
+    for f in prog.fns.values():
+        if f.crate == "sonic_rs" and (f.self_adt or "").endswith("DocumentVisitor") and f.name in ("visit_str", "visit_borrowed_str", "visit_raw_number", "visit_borrowed_raw_number") and (f.trait or "").endswith("JsonVisitor"):
+            fields = set()
+            for b, i, s_ in f.assigns():
+                names = [e[2] for e in s_["lhs"][1] if isinstance(e, list) and e[0] == "."]
+                if names and "DocumentVisitor" in f.locals[s_["lhs"][0]]["ty"]:
+                    fields.add(names[0])
+            for b, t in f.calls():
+                d = t.get("dest")
+                names = [e[2] for e in d[1] if isinstance(e, list) and e[0] == "."] if d else []
+                if names and "DocumentVisitor" in f.locals[d[0]]["ty"]:
+                    fields.add(names[0])
+            sibs[f.name] = (fields, f)
+    ctx.floor("R03.9", "text-node methods of the DOM visitor", len(sibs), 4)
+    if len(sibs) < 2:
+        return
+    union = set().union(*[v[0] for v in sibs.values()])
+    for name, (fields, f) in sorted(sibs.items()):
+        missing = sorted(union - fields)
+        ctx.ob("R03.9", f"DocumentVisitor::{name}", not missing, f.loc(),
+               f"writes the visitor fields {sorted(fields)} like its siblings" if not missing else
+               f"does not update {missing}, which the sibling text-node methods do: the bookkeeping that locates a node's document (container header / link flag) is skipped for this kind of node")
+
+
+RULES = [("R03.1", r03_1), ("R03.2", r03_2), ("R03.3", r03_3), ("R03.4", r03_4), ("R03.5", r03_5), ("R03.6", r03_6), ("R03.7", r03_7), ("R03.S", r03_s), ("R03.8", r03_8), ("R03.9", r03_9)]
